@@ -184,7 +184,9 @@ pub fn write_dso_debug_stream(
     // Count the number of loaded DSOs
     let mut dso_vec = Vec::new();
     let mut curr_map = debug_entry.r_map;
-    while curr_map != 0 {
+    let mut visited = std::collections::HashSet::new();
+    // A corrupted list may loop back on itself: stop at the first entry seen twice
+    while curr_map != 0 && visited.insert(curr_map) {
         let link_map_data = PtraceDumper::copy_from_process(
             blamed_thread,
             curr_map,
